@@ -241,7 +241,13 @@ static int configRemove(MPT_INTERFACE(config) *cfg, const MPT_STRUCT(path) *path
 			return 0;
 		}
 		if (!path->len) {
+			MPT_INTERFACE(metatype) *mt;
 			mpt_node_clear(b);
+			/* value of the element itself is part of the removed path */
+			if ((mt = b->_meta)) {
+				mt->_vptr->unref(mt);
+				b->_meta = 0;
+			}
 			return 0;
 		}
 		b = b->children;
